@@ -69,11 +69,26 @@ func argsGuard(path string, rng *rand.Rand, reps int) {
 		}},
 		{"group.P256.HashToElement(msg,dst)", []int{-1, -1}, func(a [][]byte) []byte { b, _ := group.P256.HashToElement(a[0], a[1]).MarshalBinary(); return b }},
 		{"group.P384.HashToScalar(msg,dst)", []int{-1, -1}, func(a [][]byte) []byte { b, _ := group.P384.HashToScalar(a[0], a[1]).MarshalBinary(); return b }},
-		{"group.Ristretto255.HashToElement(msg,dst)", []int{-1, -1}, func(a [][]byte) []byte { b, _ := group.Ristretto255.HashToElement(a[0], a[1]).MarshalBinary(); return b }},
+		{"group.Ristretto255.HashToElement(msg,dst)", []int{-1, -1}, func(a [][]byte) []byte {
+			b, _ := group.Ristretto255.HashToElement(a[0], a[1]).MarshalBinary()
+			return b
+		}},
 		{"bls12381.G1.Hash(msg,dst)", []int{-1, -1}, func(a [][]byte) []byte { var g bls12381.G1; g.Hash(a[0], a[1]); return g.BytesCompressed() }},
 		{"bls12381.G2.Hash(msg,dst)", []int{-1, -1}, func(a [][]byte) []byte { var g bls12381.G2; g.Hash(a[0], a[1]); return g.BytesCompressed() }},
-		{"xof.SHAKE128 Write,Read", []int{-1}, func(a [][]byte) []byte { h := xof.SHAKE128.New(); _, _ = h.Write(a[0]); out := make([]byte, 40); _, _ = h.Read(out); return out }},
-		{"k12 Write(9000),Read", []int{9000}, func(a [][]byte) []byte { h := k12.NewDraft10(nil); _, _ = h.Write(a[0]); out := make([]byte, 40); _, _ = h.Read(out); return out }},
+		{"xof.SHAKE128 Write,Read", []int{-1}, func(a [][]byte) []byte {
+			h := xof.SHAKE128.New()
+			_, _ = h.Write(a[0])
+			out := make([]byte, 40)
+			_, _ = h.Read(out)
+			return out
+		}},
+		{"k12 Write(9000),Read", []int{9000}, func(a [][]byte) []byte {
+			h := k12.NewDraft10(nil)
+			_, _ = h.Write(a[0])
+			out := make([]byte, 40)
+			_, _ = h.Read(out)
+			return out
+		}},
 		{"k12 customisation", []int{-1, -1}, func(a [][]byte) []byte {
 			h := k12.NewDraft10(a[0])
 			_, _ = h.Write(a[1])
